@@ -164,6 +164,79 @@ class Run:
                               "skipped_idna": S.get("skipped_idna", 0), "wall_s": round(time.time() - t0, 1)})
         return S, M, st
 
+    def tlc_events(self, module, family, kind, cfg=None, timeout=900, chunks=None, events_args=(), source_file=None):
+        """TLC family (p-lines) -> `vh events` (composite events recorded from the real code) -> TLC Trace_Events.
+        Returns the list of (event, verdicts) that are not ok."""
+        chunks = chunks or min(12, NCPU)
+        pre = os.path.join(self.scratch, "%s.%s.ev" % (family, kind))
+        log = os.path.join(self.scratch, "%s.%s.tlc.log" % (family, kind))
+        ecmd = [self.vh, "events", "--kind", kind, "--out", pre, "--chunks", str(chunks), "--log", log] + list(events_args)
+        t0 = time.time()
+        st = {"generated": 0, "distinct": 0}
+        if source_file:
+            ep = subprocess.run(ecmd + ["--in", source_file], cwd=self.scratch, capture_output=True, text=True, timeout=timeout)
+            if ep.returncode != 0:
+                raise Infra("events driver failed: %s %s" % (ep.stdout[-1000:], ep.stderr[-2000:]))
+            eout = ep.stdout
+        else:
+            cmd = self.tlc_cmd(module, cfg)
+            tl = subprocess.Popen(cmd, cwd=self.scratch, stdout=subprocess.PIPE, stderr=subprocess.STDOUT)
+            ep = subprocess.Popen(ecmd, cwd=self.scratch, stdin=tl.stdout, stdout=subprocess.PIPE, stderr=subprocess.PIPE, text=True)
+            tl.stdout.close()
+            try:
+                eout, eerr = ep.communicate(timeout=timeout)
+                tl.wait(timeout=60)
+            except subprocess.TimeoutExpired:
+                tl.kill(); ep.kill()
+                raise Infra("timeout generating events of family %s" % family)
+            tlog = open(log).read() if os.path.exists(log) else ""
+            st = tlc_stats(tlog)
+            if tl.returncode != 0:
+                raise Infra("TLC failed on family %s (exit %s):\n%s" % (family, tl.returncode, tail_errors(tlog)))
+            if ep.returncode != 0:
+                raise Infra("events driver failed on family %s: %s %s" % (family, eout[-1000:], eerr[-2000:]))
+        m = re.search(r"EVENTS kind=\S+ n=(\d+)", eout)
+        nev = int(m.group(1)) if m else 0
+        self.states += st["distinct"]
+        self.transitions += st["generated"]
+        bad = self.validate_events([("%s.%d" % (pre, i)) for i in range(chunks)], timeout=timeout)
+        self.validated += nev
+        self.executions += nev
+        self.families.append({"family": family + "/" + kind, "tlc_states_generated": st["generated"], "tlc_distinct_states": st["distinct"],
+                              "impl_events_recorded": nev, "events_not_ok": len(bad), "wall_s": round(time.time() - t0, 1)})
+        return bad, nev
+
+    def validate_events(self, files, timeout=900, module="Trace_Events"):
+        """Run one single-worker TLC per event file (in parallel); return [(event, verdicts)] for events that are not ok."""
+        procs = []
+        for i, f in enumerate(files):
+            if not os.path.exists(f) or os.path.getsize(f) == 0:
+                continue
+            cfg = os.path.join(self.scratch, "%s_%d_%s.cfg" % (module, i, os.path.basename(f).replace(".", "_")))
+            with open(cfg, "w") as c:
+                c.write('CONSTANT TraceFile = "%s"\nINIT Init\nNEXT Next\nINVARIANT Done\nCHECK_DEADLOCK FALSE\nPOSTCONDITION AllConsumed\n' % f)
+            cmd = self.tlc_cmd(module, cfg, workers=1, heap="2g")
+            procs.append((f, subprocess.Popen(cmd, cwd=self.scratch, stdout=subprocess.PIPE, stderr=subprocess.STDOUT, text=True)))
+        bad = []
+        for f, p in procs:
+            try:
+                out, _ = p.communicate(timeout=timeout)
+            except subprocess.TimeoutExpired:
+                p.kill()
+                raise Infra("trace validation timeout on %s" % f)
+            m = re.search(r'<<"VERDICTS", (\d+), (".*")>>', out)
+            if p.returncode != 0 or not m:
+                raise Infra("trace validation failed on %s (exit %s):\n%s" % (f, p.returncode, tail_errors(out)))
+            st = tlc_stats(out)
+            self.states += st["distinct"]
+            self.transitions += st["generated"]
+            verdicts = json.loads(json.loads(m.group(2)))
+            if verdicts:
+                lines = open(f).read().splitlines()
+                for v in verdicts:
+                    bad.append((json.loads(lines[v["i"] - 1]), v["v"]))
+        return bad
+
     # ---------- self-test of the oracle ----------
     def selftest(self):
         p = subprocess.run([sys.executable, os.path.join(VERIF, "tools", "prep_vectors.py"), os.path.join(VERIF, "vectors"), self.scratch],
